@@ -26,7 +26,7 @@ CLAIMS = {
              'closed on [0,1), and user code only ever sees copies of the stored points; for histories '
              'with resumes, every renumbering of the shells is followed by a full checkpoint write, '
              'so points_<i> is never left next to a stale bound_<i>.',
-        ref='DESIGN.md section 4 C01 and 10.9, rules M4 M5 L1 L2 L3 L4 A5 Q3 T8 M3 M6 F6 P4 P6', note=TRUST +
+        ref='DESIGN.md sections 4 C01, 10.9-10.11, rules M4 M5 L1 L2 L3 L4 A5 Q3 T8 M3 M6 F6 P4 P6 P8 P14 T9 I1', note=TRUST +
         ' contains() of each bound is numerically what it says (C07 leaf assumption).'),
     'C02': dict(
         technique='lockstep path analysis over per-shell records; dirty=>recompute post-dominance '
@@ -43,7 +43,7 @@ CLAIMS = {
              'x kept fraction, evidence term = sum_j L_j V_b/N, Kish size per shell and overall, '
              'per-sample weights that sum to the evidence term and are normalised by their own '
              'sum.  Floating-point evaluation of the formulas and eta are not decided.',
-        ref='DESIGN.md section 4 C02 and 10.9, rules L1 L1d T3 T8 Q3 A2 A6 L5 U1 A8 P4 E I1 N3', note=TRUST),
+        ref='DESIGN.md sections 4 C02, 10.9-10.11, rules L1 L1d T3 T8 Q3 A2 A6 L5 U1 A8 A9 P4 E I1 N3', note=TRUST),
     'C03': dict(
         technique='lockstep path analysis (same mask / index / source on parallel arrays), '
                   'ordered-map and batch-axis lints on the evaluation path, copy-provenance rule',
@@ -56,7 +56,7 @@ CLAIMS = {
              'receives a fresh copy; transfer candidates are consumed once; and the rows, the '
              'transfer set and its consumed marks are rewritten by every checkpoint update and '
              'restored into the attributes they came from.',
-        ref='DESIGN.md section 4 C03, rules L1-L5 S1 F5 F7 A5 P4 P1 P2', note=TRUST +
+        ref='DESIGN.md sections 4 C03, 10.9-10.11, rules L1-L5 L3b S1 F5 F7 A5 P4 P1 P2 P9 P12 M9 I1', note=TRUST +
         ' The user likelihood is assumed pure.'),
     'C05': dict(
         technique='effect analysis over the resolved call graph vs. key tables extracted from '
@@ -74,7 +74,7 @@ CLAIMS = {
              'sweeps every attribute of the fitted networks; a value cached on demand is '
              'invalidated by every write to what it was computed from (serial and pool path).  '
              'Bit-identity itself is not decided.',
-        ref='DESIGN.md section 4 C05 and 10, rules P0 P1 P2 P4 P5 P6 P8 P9 P11 P12 P14 K2 F3 F4', note=TRUST +
+        ref='DESIGN.md section 4 C05 and 10, rules P0 P1 P2 P4 P5 P6 P8 P9 P11 P12 P14 P15 K2 F3 F4', note=TRUST +
         ' h5py round-trips values exactly; sklearn training is deterministic given its seed.'),
     'C06': dict(
         technique='typestate analysis on per-function CFGs (atomic-replace protocol), path '
@@ -122,7 +122,7 @@ CLAIMS.update({
              'ellipsoid built from them through splits; caches are reset when members change; at '
              'the leaf, the ellipsoid sampler draws direction x u^(1/n) through the matrix whose '
              'inverse contains() applies.  Leaf floating-point geometry is assumed.',
-        ref='DESIGN.md section 4 C07 and 10.9, rules M1 M2 M3 A4 M6 L1 L6 T9 V2 F9', note=TRUST),
+        ref='DESIGN.md sections 4 C07, 10.9-10.11, rules M1 M2 M3 A4 M6 L1 L6 T9 V2 V3 F9', note=TRUST),
     'C08': dict(
         technique='sibling-agreement (serial vs pool branch) and def-use dependency rules',
         text='WEAK claim, structural necessary conditions only: the pool branch of '
@@ -135,7 +135,7 @@ CLAIMS.update({
              'the proposal region times (n_sample - n_reject)/n_sample and the ellipsoid volume is '
              'log|det M| + (n/2) log pi - lgamma(n/2+1) for the matrix M that contains() inverts.  Uniformity and volume calibration as '
              'distributional facts are NOT decided by static analysis.',
-        ref='DESIGN.md section 4 C08 and 10.9, rules A3 T8 Q1 Q2 P4 M1 K2 V2 I2 N3', note=TRUST),
+        ref='DESIGN.md sections 4 C08, 10.9-10.11, rules A3 T8 Q1 Q2 P4 M1 M9 K2 V2 I2 N3', note=TRUST),
     'C09': dict(
         technique='writer/reader/updater table extraction and comparison; definite-assignment '
                   'analysis of constructors against the observation interface read set',
@@ -153,7 +153,7 @@ CLAIMS.update({
              'exactly the indices 0..N-1 (range bounds evaluated, probed while-loops start at 0, '
              'advance by one and continue while the key exists); a class chosen by comparing a '
              'stored tag with a string is the class of that name.',
-        ref='DESIGN.md section 4 C09 and 10.9, rules P1-P5 P7-P13', note=TRUST +
+        ref='DESIGN.md sections 4 C09, 10.9-10.11, rules P1-P5 P7-P13 G2 K2', note=TRUST +
         ' Exact array round-trip through HDF5 and the sklearn attribute sweep are trusted.'),
     'C10': dict(
         technique='who-may-call / who-may-write tables, CFG loop contract, def-use accounting',
@@ -166,7 +166,7 @@ CLAIMS.update({
              'and is the returned value; every evaluated point comes from a unit-cube restricted '
              'bound through row selections and a shift that is closed on [0,1); across resumes the '
              'budget is compared with a counter that every checkpoint update rewrites.',
-        ref='DESIGN.md section 4 C10 and 10.9, rules F6 N1 T5 T8 M1 M3 M6 P4 I1', note=TRUST),
+        ref='DESIGN.md sections 4 C10, 10.9-10.11, rules F6 N1 T5 T8 T3 M1 M3 M6 P4 I1', note=TRUST),
     'C11': dict(
         technique='effect (write/draw) summaries closed over the call graph; control-dependence '
                   'analysis of flag tests; rng provenance; nondeterminism lints with fixtures',
@@ -181,7 +181,7 @@ CLAIMS.update({
              'arithmetic (scalar and vectorised evaluation see the same coordinates); no parameter '
              'that may be its mutable default object is modified in place, no unlisted global '
              'write, no class-level mutable attribute.',
-        ref='DESIGN.md section 4 C11 and 10.9, rules F1-F5 F7 F8 F9 G1', note=TRUST +
+        ref='DESIGN.md sections 4 C11, 10.9-10.11, rules F1-F5 F7 F8 F9 G1 G3 K2', note=TRUST +
         ' NumPy / SciPy / sklearn are deterministic given their seeds.'),
     'C12': dict(
         technique='control-dependence phase guards, who-may-write tables, extend-prefix lockstep '
@@ -194,7 +194,7 @@ CLAIMS.update({
              'discard setter recomputes every shell on every path as a pure function of stored '
              'arrays and flags, with no lazy sampling in log_v; the flag is persisted by the '
              'incremental update.',
-        ref='DESIGN.md section 4 C12, rules T6 F6 L1 L3 T3 T4 A2 A6 P4', note=TRUST),
+        ref='DESIGN.md sections 4 C12, 10.9-10.11, rules T6 F6 L1 L3 T3 T4 A2 A6 P4 P9 P12 I1', note=TRUST),
     'C13': dict(
         technique='lockstep path analysis of the parallel per-ellipsoid records, '
                   'validate-before-mutate and post-dominance (cache reset) on CFGs',
@@ -209,7 +209,7 @@ CLAIMS.update({
              'ellipsoids or points, every change is followed by reset(), and no function of the '
              'package writes into an array it was handed (so the recorded construction points '
              'stay what they were).',
-        ref='DESIGN.md section 4 C13 and 10.9, rules L1 L1d L6 L0 T1 T9 S2 S3 F9 N3', note=TRUST),
+        ref='DESIGN.md sections 4 C13, 10.9-10.12, rules L1 L1d L6 L0 T1 T9 S2 S3 F9 N3', note=TRUST),
     'C14': dict(
         technique='lockstep rule on local view arrays; purity / parameter-guarded draw; '
                   'path-wise symbolic evaluation of the repeat counts',
@@ -221,7 +221,7 @@ CLAIMS.update({
              'and one double-precision uniform per row, a Bernoulli-only mask being admitted only '
              'under branch conditions that force boost < 1.  That NumPy floor/compare/repeat do '
              'what their names say is assumed.',
-        ref='DESIGN.md section 4 C14 and 10.9, rules L5 F1 Q4 Q5', note=TRUST),
+        ref='DESIGN.md sections 4 C14, 10.9-10.11, rules L5 F1 Q4 Q5 E(normalisation)', note=TRUST),
     'C16': dict(
         technique='abstract interpretation: interval domain with open/closed ends and float-mod '
                   'transfer function; linear-form comparison of forward and inverse shift; '
